@@ -146,6 +146,9 @@ def run_case(ctx, res, case, lines, post):
     elif case['bounds'] == 'update':
         kw.update(update_bounds=True)
     else:
+        if case['bounds'] == 'estimate-late':
+            # the bounds are estimated (here: TIGHTENED, the guess being too wide) only after part of the training is done
+            system.fit(max_iter=3 + case['seed'] % 4, max_tol=-np.inf, num_refine=60, update_bounds=False)
         rs = np.random.RandomState(case['seed'])
         xt = {'x0': rs.rand(50), 'x1': rs.rand(50)}
         vals = np.array([f(a, b) for a, b in zip(xt['x0'], xt['x1'])])
@@ -211,7 +214,7 @@ def run_case(ctx, res, case, lines, post):
 def run(ctx: core.Ctx, only=None) -> core.Result:
     res = core.Result()
     res.rule = ('polynomial systems (2- and 3-component chains, a 4-component diamond, an affine 2-component feedback loop with '
-                'a downstream component), trained to exhaustion with bound options fixed/update_bounds/estimate_bounds x initial '
+                'a downstream component), trained to exhaustion with bound options fixed/update_bounds/estimate_bounds (at the start, or late: tightening a too wide guess after part of the training) x initial '
                 'coupling-domain guesses exact/too wide/too narrow (x0.5, x0.1)/offset x coupling normalisation none/linear (also with a large offset)/'
                 'minmax/zscore; System.predict vs the exact composition / linear solve at random inputs (1e-7 relative), and every '
                 'interpolator state\'s weights vs true barycentric weights. non-trivial = a coupling domain moved during '
@@ -225,6 +228,10 @@ def run(ctx: core.Ctx, only=None) -> core.Result:
             c_ = gen_case(ctx.rng)
             c_.update(norm=['zscore', 'zscore', 'linear(1, 300)'][k % 3], bounds='update', guess=['narrow', 'offset', 'narrower'][k % 3],
                       topo=['chain2', 'chain3', 'diamond', 'loop2'][k % 4])
+            cases.append(c_)
+        for k in range(ctx.scale(2, 8)):
+            c_ = gen_case(ctx.rng)
+            c_.update(norm=[None, 'linear(0.5, 1)'][k % 2], bounds='estimate-late', guess='wide', topo=['chain2', 'chain3', 'diamond', 'loop2'][k % 4])
             cases.append(c_)
     keys = ('topo', 'seed', 'coef', 'bounds', 'guess', 'norm')
     for case in cases:
